@@ -409,12 +409,27 @@ def check_c10(tier, seed, repo):
         "P00010203T040506": dict(years=1, months=2, days=3, hours=4, minutes=5, seconds=6),
         "P0000-00-01T00:00:00": dict(days=1),
         "P0001-045T01:30": dict(years=1, days=45, hours=1, minutes=30),
+        # the date-time-like spelling with reduced time precision and decimal last units
+        "P0004-03-02T01:30,5": dict(years=4, months=3, days=2, hours=1, minutes=30.5),
+        "P00040302T0130.5": dict(years=4, months=3, days=2, hours=1, minutes=30.5),
+        "P0004-078T10:15,25": dict(years=4, days=78, hours=10, minutes=15.25),
+        "P0004-078T10,5": dict(years=4, days=78, hours=10.5),
+        "P0000-00-00T00:00,5": dict(minutes=0.5),
+        "P0001-02-03T04:05:06,5": dict(years=1, months=2, days=3, hours=4, minutes=5,
+                                       seconds=6.5),
+        "P00010203T040506.25": dict(years=1, months=2, days=3, hours=4, minutes=5,
+                                    seconds=6.25),
+        "P0001-02-03T04": dict(years=1, months=2, days=3, hours=4),
+        "P0001-02-03T04:05": dict(years=1, months=2, days=3, hours=4, minutes=5),
     }
     for t, kw in texts.items():
         n += 1
         try:
-            if D.parse(t) != data.Duration(**kw):
-                fail("designators|" + t, {"text": t}, str(D.parse(t)), kw)
+            got, want = D.parse(t), data.Duration(**kw)
+            same = all(float(getattr(got, k) or 0) == float(getattr(want, k) or 0)
+                       for k in ("years", "months", "days", "hours", "minutes", "seconds"))
+            if got != want or (not got.get_is_in_weeks() and not same):
+                fail("designators|" + t, {"text": t}, str(got), kw)
         except Exception as e:
             fail("designators|" + t, {"text": t}, "%s: %s" % (type(e).__name__, e), kw)
     for y, mo, dd, hh, mi, ss in itertools.product((0, 1, 9999), (0, 11), (0, 1, 28),
@@ -430,7 +445,7 @@ def check_c10(tier, seed, repo):
                 fail("datetime-like|" + t, {"text": t}, "%s: %s" % (type(e).__name__, e), kw)
     return [{"name": "duration.str-parse.roundtrip", "kind": "grid",
              "bound": "all 63 unit subsets x both signs x integer/decimal values (seeded), 2400 random 1-6 place decimals (12000 thorough), weeks, "
-                      "empty; 13 designator texts; 432 date-time-like spellings (basic+extended)",
+                      "empty; 22 designator / date-time-like texts incl. reduced precision and decimal last units (field by field); 432 date-time-like spellings (basic+extended)",
              "evaluations": n, "exhaustive": False, "failures": fails}]
 
 
@@ -571,22 +586,53 @@ def check_c17(tier, seed, repo):
                 (2002, 3, 1), (0, 0, 0), 0):
             fail("strptime-defaults", {"text": "2002-03"}, str(q))
     # unsupported directives are refused with a ValueError-derived error
+    # ... at every entry point: the dumper, TimePoint.strftime, and strptime; alone and
+    # next to supported directives
+    from metomi.isodatetime.exceptions import StrftimeSyntaxError
+    entries = (
+        ("TimePointDumper.strftime",
+         lambda f: dumpers.TimePointDumper().strftime(data.TimePoint(year=2000), f)),
+        ("TimePoint.strftime",
+         lambda f: data.TimePoint(year=2000, month_of_year=3, day_of_month=4,
+                                  hour_of_day=5, time_zone_hour=0).strftime(f)),
+        ("TimePointParser.strptime", lambda f: P.strptime("2000", f)))
     for bad in "aAbBcCDeGghIlnpPrRtTuUVwWxyZ":
+        for (ename, call) in entries:
+            for f in ("%" + bad, "%Y-%m-%dT%H:%M:%S %" + bad):
+                if ename.endswith("strptime") and f != "%" + bad:
+                    continue
+                n += 1
+                try:
+                    got = call(f)
+                    fail("unsupported|%s|%s" % (ename, f), {"format": f, "entry": ename},
+                         str(got), "the library's ValueError-derived StrftimeSyntaxError")
+                except StrftimeSyntaxError:
+                    pass
+                except Exception as e:
+                    fail("unsupported|%s|%s" % (ename, f), {"format": f, "entry": ename},
+                         "%s: %s" % (type(e).__name__, str(e)[:80]),
+                         "the library's ValueError-derived StrftimeSyntaxError")
+    # literal text is printed as it stands (also text that looks like a dump template)
+    for lit in ("CCYY-MM-DD", "at hh:mm", "week Www", "100%% done"):
         n += 1
+        p0 = data.TimePoint(year=2008, month_of_year=12, day_of_month=29, hour_of_day=23,
+                            time_zone_hour=0)
         try:
-            got = dumpers.TimePointDumper().strftime(
-                data.TimePoint(year=2000), "%" + bad)
-            fail("unsupported|%" + bad, {"format": "%" + bad}, got, "ValueError-derived error")
-        except ValueError:
-            pass
+            got = p0.strftime(lit)
+            if got != lit.replace("%%", "%"):
+                fail("literal|" + lit, {"format": lit, "entry": "TimePoint.strftime"}, got,
+                     lit.replace("%%", "%"))
         except Exception as e:
-            fail("unsupported|%" + bad, {"format": "%" + bad}, "%s" % type(e).__name__)
+            fail("literal|" + lit, {"format": lit, "entry": "TimePoint.strftime"},
+                 "%s: %s" % (type(e).__name__, str(e)[:80]), lit.replace("%%", "%"))
     data.CALENDAR.set_mode("gregorian")
     cal.set_mode("gregorian")
     return [{"name": "strftime.vs.posix", "kind": "grid",
              "bound": "years 0000..9999 boundaries x 3 representations x 12 offsets x %d format "
                       "strings over the supported directives and literals; strptime inverse for "
-                      "full formats; 28 unsupported directives" % len(FORMATS),
+                      "full formats; 28 unsupported directives x 3 entry points (dumper, TimePoint."
+                      "strftime, strptime), alone and after supported ones; 4 literal texts"
+                      % len(FORMATS),
              "evaluations": n, "exhaustive": False, "failures": fails}]
 
 
